@@ -26,6 +26,16 @@ def main():
     except ValueError:
         seed = 0
     if a._shard:
+        # a shard never outlives its parent: if the parent is killed (an outer timeout), the kernel kills the shard as well - a mutant
+        # that makes the code under test loop forever must not leave processes behind
+        try:
+            import ctypes
+            import signal
+            ctypes.CDLL('libc.so.6', use_errno=True).prctl(1, signal.SIGKILL)       # PR_SET_PDEATHSIG
+            if os.getppid() == 1:
+                return 2
+        except Exception:  # noqa - not Linux / no libc: the parent's own watchdog remains
+            pass
         s, n = a._shard.split('/')
         engine.shard_main(prop, a.tier, seed, int(s), int(n), a._out)
         return 0
